@@ -202,7 +202,7 @@ extern "C" void h_dec_mi()
     if (hasMi) { put16(b, mi, 0x0008); if (post) put16(b, mi + 2, 20); }
     if (var == V_MI_FP || var == V_FP) put16(b, p2, 0x8028);
     if (var == V_MI_PRIO) { put16(b, p2, 0x0024); put16(b, p2 + 2, 4); }
-    if (var == V_MI_MI) { put16(b, p2, 0x0008); }
+    if (var == V_MI_MI) { put16(b, p2, 0x0008); put16(b, p2 + 2, 20); }
 
     QXmppStunMessage r;
     const bool ok = r.decode(b, key, nullptr);
